@@ -541,10 +541,61 @@ def r5_default_history_interpolates(ctx, rid):
         raise AnalysisError(f"{rid}: get_hist_func no longer returns DDEHistory(y, ...)")
 
 
+def r6_supplied_history_wins(ctx, rid):
+    """`hist` handed to get_run_func / run reaches the compiled function's argument tuple whenever the caller supplied it: in to_func
+    the default DDEHistory (get_hist_func) may replace it only when the key is ABSENT (or None) - decided by presence, never by the
+    truthiness of the supplied object (an empty sample buffer, any object with __len__ == 0 / __bool__ False is a legal history)."""
+    from engine.inline import inlined
+    from ._pitfall_lints import truthiness_of_optional_lookup, _is_none_default_lookup
+    f0 = ctx.repo.get_func(CG, "ComputeGraph.to_func")
+    f = inlined(ctx, f0)
+    defaults = [c for c in walk_shallow(f.node) if isinstance(c, ast.Call) and call_name(c) == "get_hist_func"]
+    if not defaults:
+        raise AnalysisError(f"{rid}: to_func no longer builds a default history with get_hist_func")
+
+    def is_hist_key(e):
+        if isinstance(e, ast.Name):            # a module-level string constant naming the argument
+            a = f0.module.assigns.get(e.id, [])
+            e = a[0].value if len(a) == 1 and getattr(a[0], "value", None) is not None else e
+        return isinstance(e, ast.Constant) and e.value == "hist"
+    lookups = [c for c in walk_shallow(f.node) if isinstance(c, ast.Call) and isinstance(c.func, ast.Attribute) and c.func.attr in ("get", "pop")
+               and c.args and is_hist_key(c.args[0])]
+    subs = [n for n in walk_shallow(f.node) if isinstance(n, ast.Subscript) and is_hist_key(n.slice)]
+    member = [n for n in walk_shallow(f.node) if isinstance(n, ast.Compare) and len(n.ops) == 1 and isinstance(n.ops[0], (ast.In, ast.NotIn))
+              and is_hist_key(n.left)]
+    if not lookups and not subs:
+        ctx.violation(rid, f0, defaults[0], "to_func never reads a caller-supplied `hist`: the default history of the initial state is always used",
+                      label="supplied history")
+        return
+    bad = [(site, why) for (_f, site, why, lk) in truthiness_of_optional_lookup(ctx, [f]) if lk.args and is_hist_key(lk.args[0])]
+    for site, why in bad:
+        ctx.violation(rid, f0, site, f"the caller's history is replaced by the default whenever it is falsy: {why} - an empty sample buffer or any "
+                                     f"history object with __len__()==0 is silently ignored and every delayed term reads the constant initial state",
+                      label="supplied history")
+    if bad:
+        return
+    # recognised presence forms: membership test on the key, or `is None` / `is not None` on the looked-up value
+    is_none = [n for n in walk_shallow(f.node) if isinstance(n, ast.Compare) and len(n.ops) == 1 and isinstance(n.ops[0], (ast.Is, ast.IsNot))
+               and isinstance(n.comparators[0], ast.Constant) and n.comparators[0].value is None]
+    guarded = []
+    for d in defaults:
+        for a in _anc(d):
+            if isinstance(a, (ast.If, ast.IfExp)) and (any(m is t or contains(a.test, m) for m in member for t in [a.test])
+                                                       or any(contains(a.test, m) or m is a.test for m in is_none)):
+                guarded.append(d)
+                break
+    if len(guarded) == len(defaults):
+        ctx.ok(rid, f0, defaults[0], "the default history is used only when no `hist` was supplied (presence test)", {"tests": [norm(m) for m in member + is_none][:4]},
+               label="supplied history")
+    else:
+        raise AnalysisError(f"{rid}: cannot decide how to_func chooses between the supplied and the default history (unrecognised form)")
+
+
 RULES = [
     ("C10-R1", r1_add_var_hist, 2),
     ("C10-R2", r2_history_index_is_state_index, 5),
     ("C10-R3", r3_solvers_feed_history, 3),
     ("C10-R4", r4_history_time_units, 6),
     ("C10-R5", r5_default_history_interpolates, 6),
+    ("C10-R6", r6_supplied_history_wins, 1),
 ]
